@@ -426,6 +426,38 @@ class Evaluator:
                     final.append(Outcome("fall", None, None, ev_, e_, cd_))
                 return final
             raise Unsupported("for over unknown iterable")
+        if isinstance(st, ast.Delete):
+            # `del xs[a:]` / `del xs[i]` on a known local list: a rebinding, like the other container mutations
+            for t in st.targets:
+                if not (isinstance(t, ast.Subscript) and isinstance(t.value, ast.Name) and env.has(t.value.id)):
+                    raise Unsupported(f"statement {unparse(st, 40)}")
+                base = env.get(t.value.id)
+                if isinstance(base, Const) and isinstance(base.v, list):
+                    elems = [Const(x) for x in base.v]
+                elif isinstance(base, list):
+                    elems = list(base)
+                else:
+                    raise Unsupported(f"statement {unparse(st, 40)}")
+                if isinstance(t.slice, ast.Slice):
+                    lo = self.eval(t.slice.lower, env, scope) if t.slice.lower is not None else Const(None)
+                    hi = self.eval(t.slice.upper, env, scope) if t.slice.upper is not None else Const(None)
+                    if not (isinstance(lo, Const) and isinstance(hi, Const)) or t.slice.step is not None:
+                        raise Unsupported(f"statement {unparse(st, 40)}")
+                    del elems[slice(lo.v, hi.v)]
+                else:
+                    ix = self.eval(t.slice, env, scope)
+                    if not isinstance(ix, Const) or not isinstance(ix.v, int):
+                        raise Unsupported(f"statement {unparse(st, 40)}")
+                    try:
+                        del elems[ix.v]
+                    except IndexError as ex:
+                        raise AbsRaise("IndexError", str(ex))
+                new = Const([x.v for x in elems]) if all(isinstance(x, Const) for x in elems) else elems
+                cur: Optional[Env] = env
+                while cur is not None and t.value.id not in cur.vars:
+                    cur = cur.parent
+                (cur or env).vars[t.value.id] = new
+            return self._fall(env)
         if isinstance(st, ast.While):
             raise Unsupported("while")
         if isinstance(st, ast.With):
